@@ -34,7 +34,9 @@ func stackAlphabet(cfg Cfg, withEvict bool) []wire.Op {
 			p(wire.Op{Kind: "append", Key: "b", Val: "u", QuietW: true})
 			p(wire.Op{Kind: "set", Key: "b", Val: "w", Flags: 3, QuietW: true})
 			p(wire.Op{Kind: "prepend", Key: "a", Val: "h", QuietW: true})
-			if cfg.Orca == "l1only" && cfg.L1H != "chunked" {
+			if cfg.Orca == "l1only" && cfg.L1H != "chunked" && cfg.L1H != "inmem" {
+				// (the in-process debug backend reports an absolute expiry there; how it renders the
+				// expiry of get-with-expiry is not part of any property - C17 leaves it out as well)
 				// get-with-expiry (L1-only deployments): the value, its flags and its remaining lifetime
 				p(wire.Op{Kind: "gete", Key: "a"})
 			}
@@ -120,6 +122,7 @@ func runC01(c *rt.Ctx) {
 	// the same deployments as rend's own main program builds them from its command line (flags,
 	// lock-set sharing between the two ports, listeners, handler constructors, accept loop)
 	cfgs = append(cfgs, AppCfgs()...)
+	cfgs = append(cfgs, AppCfgsRare()...)
 	totalStates, totalTrans := 0, 0
 	for i, cfg := range cfgs {
 		if !c.Mine(i) {
